@@ -3,6 +3,6 @@ export VERIF_EVIDENCE_DIR=/verif/build/evidence-scratch
 # dev aid: apply a seeded change to /repo, run the given checks, undo.  usage: seedtest.sh <seed-dir> <Cxx> [<Cyy> ...]
 d=$1; shift
 git -C /repo apply /verif/seeded/$d/patch.diff || exit 2
-for p in "$@"; do (cd /verif && ./check $p 2>&1 | grep -v '^WARNING' | tail -4); done
+for p in "$@"; do (cd /verif && ./check $p 2>&1 | grep -E '^VIOLATION|^KNOWN-FINDING|^\[C[0-9]+\]'); done
 git -C /repo checkout -- .
 git -C /repo status --short | head -3
